@@ -13,6 +13,13 @@ import (
 // G23: (*types.Package) accessors on Obj().Pkg() — nil for universe objects such as `error` — are guarded.
 // G24: results of the compiler's may-return-nil constructors are nil-tested before any field access,
 // directly or after having been stored in a slice that is later ranged over.
+// libMayNil: library functions documented to return nil for ordinary inputs (a call through a function value
+// has no static callee).
+var libMayNil = map[string]bool{
+	"golang.org/x/tools/go/types/typeutil.StaticCallee": true,
+	"golang.org/x/tools/go/types/typeutil.Callee":       true,
+}
+
 func (c *ctx) nilSafety() {
 	// ---- G23
 	n23 := 0
@@ -108,7 +115,7 @@ func (c *ctx) nilSafety() {
 				return true
 			}
 			call, ok := as.Rhs[0].(*ast.CallExpr)
-			if !ok || !mayNil[astx.Callee(info, call)] {
+			if !ok || !(mayNil[astx.Callee(info, call)] || libMayNil[fullName(astx.Callee(info, call))]) {
 				return true
 			}
 			v := astx.IdentObj(info, as.Lhs[0])
